@@ -340,11 +340,12 @@ def loader_tasks(case, root, cache_dir, link):
         raise ValueError('no loader configuration for ' + b)
     mp = {'services': {'tms': {}},
           'grids': {'gg': {'srs': 'EPSG:3857', 'bbox': list(bbox), 'res': list(ress), 'origin': 'll', 'tile_size': [ts, ts]}},
-          'caches': {'c': {'grids': ['gg'], 'sources': [], 'cache': cc, 'meta_size': list(case['meta']), 'format': 'image/png',
-                           'link_single_color_images': bool(link)}},
+          'caches': {'c': {'grids': ['gg'], 'sources': [], 'cache': cc, 'meta_size': list(case['meta']), 'format': 'image/png'}},
           'layers': [{'name': 'c', 'title': 'c', 'sources': ['c']}],
           'globals': {'cache': {'base_dir': os.path.join(root, 'base'), 'lock_dir': os.path.join(root, 'locks'),
                                 'tile_lock_dir': os.path.join(root, 'tlocks')}}}
+    if link:
+        mp['caches']['c']['link_single_color_images'] = True
     t = case['task']
     cl = {'caches': ['c'], 'grids': ['gg'], 'levels': list(t['levels'])}
     if t['all']:
